@@ -141,6 +141,11 @@ func (p *Parser) parseGeneric(sb align.SeqBag) (err error) {
 		}
 	}
 
+	if sb.NbSequences() == 0 {
+		err = errors.New("no sequence in the fasta file")
+		return
+	}
+
 	if p.alphabet == align.BOTH {
 		sb.AutoAlphabet()
 	} else {
